@@ -5,7 +5,9 @@ Any new finding or ANALYSIS-ERROR is a false alarm / a brittleness of a rule.
 
 usage: benign_campaign.py rename [file-substring ...]   alpha-rename the local variables of every function (per file)
        benign_campaign.py swapif [file-substring ...]   `if c: A else: B`  ->  `if not c: B else: A` (per file)
-       benign_campaign.py all                           both, whole package at once
+       benign_campaign.py retvar|condvar [...]           `return E` -> `t = E; return t`;  `if C:` -> `t = C; if t:`
+       benign_campaign.py all                           rename + swapif, whole package at once
+       benign_campaign.py <kind> --whole                one variant with every file rewritten
 Results are printed; nothing under /verif or /repo is modified."""
 
 from __future__ import annotations
@@ -84,12 +86,129 @@ class _SwapIf(ast.NodeTransformer):
         return node
 
 
+class _RetVar(ast.NodeTransformer):
+    """`return EXPR` -> `ret_tmpN = EXPR; return ret_tmpN` (same evaluation order; a fresh name per site)."""
+
+    n = 0
+
+    def _body(self, body: list[ast.stmt]) -> list[ast.stmt]:
+        out: list[ast.stmt] = []
+        for st in body:
+            if isinstance(st, ast.Return) and st.value is not None and not isinstance(st.value, (ast.Name, ast.Constant)):
+                _RetVar.n += 1
+                nm = f"ret_tmp{_RetVar.n}"
+                out.append(ast.Assign(targets=[ast.Name(id=nm, ctx=ast.Store())], value=st.value, lineno=st.lineno))
+                out.append(ast.Return(value=ast.Name(id=nm, ctx=ast.Load())))
+            else:
+                out.append(st)
+        return out
+
+    def generic_visit(self, node: ast.AST) -> ast.AST:
+        super().generic_visit(node)
+        if isinstance(node, ast.Lambda):
+            return node
+        for fld in ("body", "orelse", "finalbody"):
+            b = getattr(node, fld, None)
+            if isinstance(b, list) and b and isinstance(b[0], ast.stmt):
+                setattr(node, fld, self._body(b))
+        if isinstance(node, ast.Try):
+            for h in node.handlers:
+                h.body = self._body(h.body)
+        return node
+
+
+class _CondVar(ast.NodeTransformer):
+    """`if COND:` -> `cond_tmpN = COND; if cond_tmpN:` for plain if statements that are not part of an elif chain."""
+
+    n = 0
+
+    def _body(self, body: list[ast.stmt]) -> list[ast.stmt]:
+        out: list[ast.stmt] = []
+        for st in body:
+            if isinstance(st, ast.If) and not isinstance(st.test, (ast.Name, ast.Constant)) and not any(isinstance(x, (ast.NamedExpr, ast.Await)) for x in ast.walk(st.test)):
+                _CondVar.n += 1
+                nm = f"cond_tmp{_CondVar.n}"
+                out.append(ast.Assign(targets=[ast.Name(id=nm, ctx=ast.Store())], value=st.test, lineno=st.lineno))
+                st.test = ast.Name(id=nm, ctx=ast.Load())
+            out.append(st)
+        return out
+
+    def generic_visit(self, node: ast.AST) -> ast.AST:
+        super().generic_visit(node)
+        for fld in ("body", "finalbody"):
+            b = getattr(node, fld, None)
+            if isinstance(b, list) and b and isinstance(b[0], ast.stmt):
+                setattr(node, fld, self._body(b))
+        # orelse: only when it is a real else block, not an elif chain
+        b = getattr(node, "orelse", None)
+        if isinstance(b, list) and b and isinstance(b[0], ast.stmt) and not (isinstance(node, ast.If) and len(b) == 1 and isinstance(b[0], ast.If)):
+            node.orelse = self._body(b)  # type: ignore[attr-defined]
+        return node
+
+
+class _SwapIfExp(ast.NodeTransformer):
+    def visit_IfExp(self, node: ast.IfExp) -> ast.AST:  # noqa: N802
+        self.generic_visit(node)
+        t = node.test.operand if isinstance(node.test, ast.UnaryOp) and isinstance(node.test.op, ast.Not) else ast.UnaryOp(op=ast.Not(), operand=node.test)
+        node.test, node.body, node.orelse = t, node.orelse, node.body
+        return node
+
+
+class _Yoda(ast.NodeTransformer):
+    """`x == CONST` -> `CONST == x`, `x is None` -> `None is x` (single comparisons against a constant)."""
+
+    def visit_Compare(self, node: ast.Compare) -> ast.AST:  # noqa: N802
+        self.generic_visit(node)
+        if len(node.ops) == 1 and isinstance(node.ops[0], (ast.Eq, ast.NotEq, ast.Is, ast.IsNot)) and isinstance(node.comparators[0], ast.Constant) and not isinstance(node.left, ast.Constant):
+            node.left, node.comparators = node.comparators[0], [node.left]
+        return node
+
+
+class _KwReorder(ast.NodeTransformer):
+    """Reverse the keyword arguments of every call (no **kwargs involved)."""
+
+    def visit_Call(self, node: ast.Call) -> ast.AST:  # noqa: N802
+        self.generic_visit(node)
+        if len(node.keywords) > 1 and all(k.arg is not None for k in node.keywords) and all(isinstance(k.value, (ast.Name, ast.Constant, ast.Attribute)) for k in node.keywords):
+            node.keywords = list(reversed(node.keywords))
+        return node
+
+
+class _ExcOrder(ast.NodeTransformer):
+    def visit_ExceptHandler(self, node: ast.ExceptHandler) -> ast.AST:  # noqa: N802
+        self.generic_visit(node)
+        if isinstance(node.type, ast.Tuple):
+            node.type.elts = list(reversed(node.type.elts))
+        return node
+
+
+class _MsgText(ast.NodeTransformer):
+    """Reword the message of every `raise X("…")` (prefix added)."""
+
+    def visit_Raise(self, node: ast.Raise) -> ast.AST:  # noqa: N802
+        self.generic_visit(node)
+        if isinstance(node.exc, ast.Call) and node.exc.args:
+            a = node.exc.args[0]
+            if isinstance(a, ast.Constant) and isinstance(a.value, str):
+                node.exc.args[0] = ast.Constant(value="error: " + a.value)
+            elif isinstance(a, ast.JoinedStr):
+                a.values.insert(0, ast.Constant(value="error: "))
+        return node
+
+
 def transform(src: str, kind: str) -> str:
     tree = ast.parse(src)
     if kind in ("rename", "all"):
         tree = _Rename().visit(tree)
     if kind in ("swapif", "all"):
         tree = _SwapIf().visit(tree)
+    for k_, cls_ in (("swapifexp", _SwapIfExp), ("yoda", _Yoda), ("kwreorder", _KwReorder), ("excorder", _ExcOrder), ("msgtext", _MsgText)):
+        if kind == k_:
+            tree = cls_().visit(tree)
+    if kind == "retvar":
+        tree = _RetVar().visit(tree)
+    if kind == "condvar":
+        tree = _CondVar().visit(tree)
     ast.fix_missing_locations(tree)
     return ast.unparse(tree)
 
@@ -130,7 +249,9 @@ def main() -> int:
     subs = sys.argv[2:]
     files = sorted(p for p in (REPO / "liquid2").rglob("*.py") if "__pycache__" not in p.parts)
     groups: list[list[Path]]
-    if kind == "all" or not subs:
+    if subs[:1] == ["--whole"]:
+        groups = [files]
+    elif kind == "all" or not subs:
         groups = [files] if kind == "all" else [[f] for f in files]
     else:
         groups = [[f] for f in files if any(s in str(f) for s in subs)]
